@@ -4,8 +4,9 @@
    *_regress: the witnesses of the round-1 findings fixed in /repo, with the values the property demands. *)
 From Coq Require Import Reals ZArith Bool List.
 From Coquelicot Require Import Coquelicot.
-From ADV Require Import Base.Num C14.ER C14.Model C14.Spec C14.Corr.
-From ADV Require C14.ProofsCont C14.ProofsDisc C14.ProofsNorm C14.ProofsCdf C14.ProofsCdf2 C14.ProofsRegress.
+From ADV Require Import Base.Num C14.ER C14.Model C14.VModel C14.Spec C14.Corr.
+From ADV Require C14.ProofsCont C14.ProofsDisc C14.ProofsNorm C14.ProofsCdf C14.ProofsCdf2 C14.ProofsVec C14.ProofsRegress.
+Import ProofsVec (mvt_pdf, mvn_pdf, student_pdf).
 Import ListNotations.
 Open Scope R_scope.
 
@@ -232,6 +233,46 @@ Proof. exact ProofsCdf2.gamma_cdf. Qed.
 Theorem chisq_cdf :
   forall (lgam : R -> R) (gamP : R -> R -> R) (k : R), chisq_valid k -> exists d : chi_d, chi_new lgam k = Some d /\ (forall x : R, 0 < x -> chi_cdf gamP d x = Val (Fin (gamP (k / 2) (x / 2))) /\ chi_logcdf gamP d x = Val (elog (Fin (gamP (k / 2) (x / 2))))) /\ (forall x : R, x <= 0 -> chi_cdf gamP d x = Val (Fin 0) /\ chi_logcdf gamP d x = Val NInf).
 Proof. exact ProofsCdf2.chisq_cdf. Qed.
+
+Theorem mvt_formula :
+  forall (lgam : R -> R) (nu : R) (mu : list R) (sinv : list (list R)) (sdet : R) (x : list R), 0 < nu -> 0 < sdet -> 0 <= qform sinv x mu -> vt_logpdf (vt_new lgam nu mu sinv sdet) x = Val (Fin (ln (mvt_pdf lgam nu (length mu) sdet (qform sinv x mu)))).
+Proof. exact ProofsVec.mvt_formula. Qed.
+
+Theorem mvn_formula :
+  forall (mu : list R) (sinv : list (list R)) (sdet : R) (x : list R), 0 < sdet -> length x = length mu -> exists d : vn_d, vn_new mu sinv sdet = Some d /\ vn_logpdf d x = Val (Fin (ln (mvn_pdf (length mu) sdet (qform sinv x mu)))).
+Proof. exact ProofsVec.mvn_formula. Qed.
+
+Theorem mvn_ctor :
+  forall (mu : list R) (sinv : list (list R)) (sdet : R), vn_new mu sinv sdet = None <-> sdet = 0.
+Proof. exact ProofsVec.mvn_ctor. Qed.
+
+Theorem mvn_dim_guard :
+  forall (d : vn_d) (x : list R), length x <> length (vn_mu d) -> vn_logpdf d x = ErrDim.
+Proof. exact ProofsVec.mvn_dim_guard. Qed.
+
+Theorem mvn_scalar_consistency :
+  forall m s x : R, 0 < s -> exists (dv : vn_d) (ds : normal_d), vn_new [m] [[/ (s * s)]] (s * s) = Some dv /\ normal_new m s = Some ds /\ vn_logpdf dv [x] = normal_logpdf ds x.
+Proof. exact ProofsVec.mvn_scalar_consistency. Qed.
+
+Theorem mvt_scalar_consistency :
+  forall (lgam : R -> R) (nu m s x : R), 0 < nu -> 0 < s -> vt_logpdf (vt_new lgam nu [m] [[/ (s * s)]] (s * s)) [x] = Val (Fin (ln (student_pdf lgam nu m s x))).
+Proof. exact ProofsVec.mvt_scalar_consistency. Qed.
+
+Theorem iid_formula :
+  forall (inner : R -> res) (g : R -> R) (xs : list R), (forall x : R, In x xs -> inner x = Val (Fin (g x))) -> iid_logpdf inner (Z.of_nat (length xs)) xs = Val (Fin (fold_left (fun a x : R => a + g x) xs 0)).
+Proof. exact ProofsVec.iid_formula. Qed.
+
+Theorem iid_dim_guard :
+  forall (inner : R -> res) (n : Z) (xs : list R), n <> (-1)%Z -> Z.of_nat (length xs) <> n -> iid_logpdf inner n xs = ErrDim.
+Proof. exact ProofsVec.iid_dim_guard. Qed.
+
+Theorem iid_anydim_quirk :
+  forall (inner : R -> res) (xs : list R), iid_logpdf inner (-1) xs = Val (Fin 0).
+Proof. exact ProofsVec.iid_anydim_quirk. Qed.
+
+Theorem id_formula :
+  forall (inners : list (R -> res)) (xs gs : list R), length xs = length inners -> Forall2 (fun (p : (R -> res) * R) (v : R) => fst p (snd p) = Val (Fin v)) (combine inners xs) gs -> id_logpdf inners xs = Val (Fin (fold_left Rplus gs 0)).
+Proof. exact ProofsVec.id_formula. Qed.
 
 Theorem laplace_cdf_regress :
   forall (lgam lerfc : R -> R) (gamP : R -> R -> R), agrees (eval lgam lerfc gamP FLaplace LogCdf [0; 1] [] 0) (OVal (- (6931 / 10000)) (1 / 1000)) /\ agrees (eval lgam lerfc gamP FLaplace Cdf [0; 1] [] 0) (OVal (1 / 2) (1 / 1000)) /\ agrees (eval lgam lerfc gamP FLaplace Cdf [0; 1] [] 1) (OVal (8161 / 10000) (1 / 1000)) /\ agrees (eval lgam lerfc gamP FLaplace Ctor [0; -1] [] 0) OCtorErr.
